@@ -335,8 +335,9 @@ nni_id_remove(nni_id_map *m, uint64_t id)
 
 	m->id_count--;
 
-	// Shrink -- but it's ok if we can't.
-	(void) id_resize(m);
+	// We do not shrink the table here: that would rehash it under a
+	// caller that is removing entries while iterating with nni_id_visit
+	// (which is documented to be safe).  The next nni_id_set resizes.
 	ID_VERIF_CHECK(m, "remove");
 
 	return (0);
